@@ -995,7 +995,10 @@ def rebuilt(w):
 def oracle_queries(w, rng, heavy=False):
     """Every query answers as a freshly rebuilt equal circuit would."""
     cirq, c = w.cirq, w.c
-    f = rebuilt(w)
+    try:
+        f = rebuilt(w)
+    except ValueError as e:       # the moments themselves are not well formed (the wf oracle reports it)
+        return [f'a circuit with these moments cannot even be rebuilt: {e}']
     probs = []
 
     def run(fn, x):
